@@ -773,6 +773,7 @@ WORKLOADS: dict[str, Callable[[], Workflow]] = {
     "fwdjump": wl_forward_jump,
     "joinjump": wl_joinjump,
     "suspend": wl_suspend,
+    "suspend2": lambda: wl_suspend(signals=2),
     "mutex": wl_mutex,
     "choice": wl_choice,
 }
